@@ -336,8 +336,17 @@ impl IoLoop {
                 // If our credentials are bad, the socket is dropped without a message,
                 // but we can detect that if we had gotten up to the Secure state before
                 // failing.
+                // Only the socket going away says so; anything else that goes wrong
+                // at this point (an unsupported Secure challenge, a timeout, garbage
+                // from the server) is reported as what it is.
+                let socket_dropped = matches!(
+                    err,
+                    Error::UnexpectedSocketClose | Error::IoErrorReadingSocket { .. }
+                );
                 return match state {
-                    HandshakeState::Secure(_, _) => InvalidCredentialsSnafu.fail(),
+                    HandshakeState::Secure(_, _) if socket_dropped => {
+                        InvalidCredentialsSnafu.fail()
+                    }
                     _ => Err(err),
                 };
             }
